@@ -76,6 +76,9 @@ func (w *W) MarkProgress(desc string) {
 }
 
 func (w *W) Expired() bool {
+	if w.Truncated {
+		return true
+	}
 	if !w.Deadline.IsZero() && time.Now().After(w.Deadline) {
 		w.Truncated = true
 		return true
